@@ -1,12 +1,14 @@
 #!/bin/bash
-# usage: refactor_test.sh <id> ...  — behaviour-preserving refactorings delivered in /tmp/wt4/<prop>/out/<id>/: confirm in the clone
-# (equivalence test passes before and after, suite passes), then apply to /repo, run the property's quick check (expect exit 0), revert.
+# usage: refactor_test.sh <id> ...  — behaviour-preserving refactorings (no-alarm corpus, archived in /verif/refactors/<id>/; while a
+# scratch clone /tmp/wt4/<prop> exists the delivery is first confirmed there: equivalence test passes before and after, suite passes):
+# apply to /repo, run the property's quick check (expect exit 0 and no VIOLATION), revert. Never run while another check is running.
 cd /verif || exit 2
 export GOFLAGS=-mod=mod GOPROXY=off
 for s in "$@"; do
-  p=${s%-*}; wt=/tmp/wt4/$p; sd=$wt/out/$s
+  p=${s%-*}; wt=/tmp/wt4/$p; sd=/verif/refactors/$s; [ -d $wt/out/$s ] && sd=$wt/out/$s
   f=$(grep -m1 '^+++ b/' "$sd/patch.diff" | sed 's|^+++ b/||'); pkgdir=$(dirname "$f")
-  ( cd $wt && git checkout -q -- . && cp $sd/equiv_test.go $pkgdir/zz_equiv_test.go && a=$(go test -vet=off -count=1 -run TestRefactorEquiv ./$pkgdir 2>&1 | tail -1 | cut -c1-40); git apply $sd/patch.diff && b=$(go test -vet=off -count=1 -run TestRefactorEquiv ./$pkgdir 2>&1 | tail -1 | cut -c1-40); rm -f $pkgdir/zz_equiv_test.go; c=$(go test -vet=off -count=1 $(go list ./... | grep -v /out) 2>&1 | grep -v '^ok\|no test files' | head -2); git checkout -q -- .; echo "confirm: before=[$a] after=[$b] suite_failures=[$c]" ) > /tmp/refconf_$s.txt 2>&1
+  echo "confirm: (archived; confirmed when delivered)" > /tmp/refconf_$s.txt
+  [ -d $wt ] && ( cd $wt && git checkout -q -- . && cp $sd/equiv_test.go $pkgdir/zz_equiv_test.go && a=$(go test -vet=off -count=1 -run TestRefactorEquiv ./$pkgdir 2>&1 | tail -1 | cut -c1-40); git apply $sd/patch.diff && b=$(go test -vet=off -count=1 -run TestRefactorEquiv ./$pkgdir 2>&1 | tail -1 | cut -c1-40); rm -f $pkgdir/zz_equiv_test.go; c=$(go test -vet=off -count=1 $(go list ./... | grep -v /out) 2>&1 | grep -v '^ok\|no test files' | head -2); git checkout -q -- .; echo "confirm: before=[$a] after=[$b] suite_failures=[$c]" ) > /tmp/refconf_$s.txt 2>&1
   if [ -n "$(git -C /repo status --porcelain --untracked-files=no)" ]; then echo "repo dirty" >&2; exit 2; fi
   if ! git -C /repo apply $sd/patch.diff; then echo "$s: patch does not apply to /repo"; continue; fi
   GOVC_EVIDENCE_DIR=/verif/out/evidence_seed ./check $p $ONLY > /tmp/reftest_$s.log 2>&1; rc=$?
